@@ -30,6 +30,8 @@ class Mesh:
         self.deleted: Set[Operation] = set()
         # operations the current blocks were created from, in block order
         self.assembled: List[Operation] = []
+        # the option the current assembly was made with (backport() repeats it)
+        self.skip_edges = False
 
         self.vertex_list = VertexList()
         self.edge_list = EdgeList()
@@ -107,6 +109,8 @@ class Mesh:
             # blocks and lists are in place already (clear() undoes that)
             return
 
+        self.skip_edges = skip_edges
+
         try:
             self._assemble(skip_edges)
         except Exception:
@@ -165,6 +169,7 @@ class Mesh:
         self.patch_list.clear()
         self.face_list.clear()
         self.assembled.clear()
+        self.skip_edges = False
 
     def backport(self) -> None:
         """When mesh is assembled, points from depot are converted to vertices and
@@ -189,8 +194,11 @@ class Mesh:
             op.bottom_face.update(vertices[:4])
             op.top_face.update(vertices[4:])
 
+        # re-assemble the way the mesh was assembled
+        skip_edges = self.skip_edges
+
         self.clear()
-        self.assemble()
+        self.assemble(skip_edges)
 
     def format_settings(self) -> str:
         """Put self.settings in a proper, blockMesh-readable format"""
